@@ -11,6 +11,7 @@
   (check/http_checks.py C16).
 -/
 import TrVerif.Proofs.DataTerm
+import TrVerif.Generated.Tables
 namespace Tr
 
 /-- **connections of a trip**: one per consecutive stop pair; the i-th leaves stop i of the path
@@ -73,5 +74,15 @@ theorem C16_scenario_set (ds : Dataset) (sc : Scenario) :
     (ds.connSetOf sc).fwdIdx = fwdIndex (ds.connSetOf sc).fwd ∧
     (ds.connSetOf sc).revIdx = revIndex (ds.connSetOf sc).rev :=
   ⟨rfl, rfl, rfl, rfl⟩
+
+/-- **the comparators of the two stable sorts, re-read from the source on every run**: the forward
+    list is ordered by departure time, then trip, then sequence number (each ascending), the
+    reverse list by arrival time, then trip, then sequence number (each descending) - the keys and
+    directions of the model's `fwdLt` / `revLt`, which `C16_sorted_lists` is about.  (Two
+    connections of one trip can tie in time - consecutive stops served in the same second - and
+    then only the sequence number orders them.) -/
+theorem C16_comparators :
+    Gen.fwdSortKeys = [("getDepartureTime()", "<"), ("getTrip().uuid", "<"), ("getSequenceInTrip()", "<")] ∧
+    Gen.revSortKeys = [("getArrivalTime()", ">"), ("getTrip().uuid", ">"), ("getSequenceInTrip()", ">")] := by decide
 
 end Tr
